@@ -146,3 +146,17 @@ Definition einsum_dot_ok (d1 d2 dout : list pex) : bool :=
   forallb plain d1 && forallb plain d2 && forallb plain dout && nodupb (lnames d1) && nodupb (lnames d2) && nodupb (lnames dout)
   && subset_names (lnames dout) (lnames d1 ++ lnames d2)
   && Nat.leb (List.length (snd (ein_assign (snd (ein_assign [] (lnames d1))) (lnames d2)))) 26.
+
+(* ---- operations that keep the shape and act along the bracketed axes (flip, roll) ----
+   reshape to the leaf axes, the backend function with axis = the tuple of bracketed positions (plus its own literal arguments),
+   rearrangement of the leaf axes into the output *)
+Definition tuple_lit (ax : list nat) : string := append "[" (append (join_str "," (map EinxV.Base.Sexp.string_of_nat ax)) "]").
+Definition leaf_dims (d : list pex) : list pex := map leaf_ax (leaves d).
+Definition unmark (d : list pex) : list pex := map (pmark (fun _ => false)) d.
+Definition preserve_call (f : string) (extra : list string) (kwlit : string) (din : list pex) : tm :=
+  MOther f [MReshape (MIn 0 (map psize din)) (llens din)]
+         (tuple_lit (EinxV.Gen.GenAdapter.gen_expr_to_axis (lmarks din)) :: extra ++ [kwlit]) (llens din).
+Definition lower_preserve (f : string) (extra : list string) (kwlit : string) (din dout : list pex) : tm :=
+  MReshape (MTranspose (MReshape (preserve_call f extra kwlit din) (llens din)) (perm_of din dout)) (map psize dout).
+Definition preserve_ok (din dout : list pex) : bool :=
+  forallb unoffset din && forallb unoffset dout && rearrange_ok (leaf_dims din) (unmark dout).
